@@ -29,6 +29,7 @@ type rec struct {
 	returned bool
 	late     []map[string]any // handler invocations after the call had returned
 	sendErrs []string
+	unenc    []unencRes // what the sender said to the unencodable attempts
 	noSender bool
 	ranTimes int
 }
@@ -81,6 +82,13 @@ func (g *registry) toolHandler(ctx context.Context, req *mcp.CallToolRequest) (*
 		}
 		if e.Pause > 0 {
 			time.Sleep(e.Pause) // timing variation only, nothing waits for it
+		}
+		if e.Unenc != "" {
+			uerr := sendUnenc(sender, e)
+			rc.mu.Lock()
+			rc.unenc = append(rc.unenc, unencRes{e.Seq, e.K, e.Unenc, uerr})
+			rc.mu.Unlock()
+			continue
 		}
 		var err error
 		switch e.K {
@@ -280,7 +288,11 @@ func planSummary(cfg hk.SrvCfg, profile []string, pl *plan) map[string]any {
 		if e.Pause >= 100*time.Millisecond {
 			kinds = append(kinds, fmt.Sprintf("<handler pauses %v>", e.Pause))
 		}
-		kinds = append(kinds, fmt.Sprintf("%s:%s:%dB:meta=%s", e.K, e.Method, e.Bytes, e.MetaKind))
+		if e.Unenc != "" {
+			kinds = append(kinds, fmt.Sprintf("%s:%s:UNENCODABLE(%s)", e.K, e.Method, e.Unenc))
+		} else {
+			kinds = append(kinds, fmt.Sprintf("%s:%s:%dB:meta=%s", e.K, e.Method, e.Bytes, e.MetaKind))
+		}
 		if len(kinds) >= 12 {
 			kinds = append(kinds, "…")
 			break
@@ -308,7 +320,7 @@ func fpOf(mode, scen, what string) string {
 // judge is the implementation-level oracle for one call: the property's statement, checked on the real client's
 // observations without the model.
 func judge(c *hk.Ctx, cfg hk.SrvCfg, profile []string, pl *plan, rc *rec, out outcome) {
-	judgeScen(c, "", cfg, profile, pl, rc, out)
+	judgeScen(c, pl.FpScen, cfg, profile, pl, rc, out)
 }
 
 // judgeScen: the same oracle; scen (e.g. "slow-handler:pause>=10s") only makes the fingerprints specific.
@@ -340,7 +352,10 @@ func judgeScen(c *hk.Ctx, scen string, cfg hk.SrvCfg, profile []string, pl *plan
 		c.Violate(hk.Violation{Fingerprint: fpOf(mode, scen, "no-sender-in-context"), What: "GetNotificationSender found no sender in the handler's context", Input: in})
 	}
 	if len(sendErrs) > 0 {
-		c.Violate(hk.Violation{Fingerprint: fpOf(mode, scen, "send-error"), What: "the sender returned an error", Input: in, Observed: sendErrs[0]})
+		c.Violate(hk.Violation{Fingerprint: fpOf(mode, scen, "send-error"), What: "the sender returned an error for an encodable notification", Input: in, Observed: sendErrs[0]})
+	}
+	if cfg.PostSSE {
+		judgeRefusals(c, mode, scen, in, pl, rc)
 	}
 	if len(late) > 0 {
 		c.Violate(hk.Violation{Fingerprint: fpOf(mode, scen, "delivered-after-return"), What: "a notification reached its handler after the call had returned", Input: in, Observed: truncAny(late[0])})
@@ -349,7 +364,7 @@ func judgeScen(c *hk.Ctx, scen string, cfg hk.SrvCfg, profile []string, pl *plan
 	var want []map[string]any
 	var inSpec []bool
 	if cfg.PostSSE {
-		for _, e := range pl.Emits {
+		for _, e := range pl.wire() { // the sender refuses the unencodable ones: they are not on the stream
 			if contains(profile, e.Method) {
 				v, ok := e.want()
 				want = append(want, v)
@@ -543,7 +558,12 @@ func runEnv(c *hk.Ctx, cfg hk.SrvCfg, profileName string, profile, unregister []
 		} else {
 			tags = append(tags, "via=CallTool")
 		}
+		tags = append(tags, pl.Tags...)
 		for _, e := range pl.Emits {
+			if e.Unenc != "" {
+				tags = append(tags, "unencodable:"+e.K+":"+e.Unenc)
+				continue
+			}
 			tags = append(tags, "kind="+e.K, sizeClass(e.Bytes), "meta="+e.MetaKind)
 			if e.Pause > 0 {
 				tags = append(tags, "paused")
